@@ -1655,7 +1655,7 @@ func main() {
 		return
 	}
 
-	nPure, nLevels, nHist, histOps := 5000, 900, 30, 45
+	nPure, nLevels, nHist, histOps := 5000, 900, 24, 45
 	if o.Tier == "thorough" {
 		nPure, nLevels, nHist, histOps = 60000, 8000, 300, 70
 	}
